@@ -27,7 +27,7 @@ type CaseC04 struct {
 	PreSync bool       `json:"presync"`
 	Base    int        `json:"base"`  // index into the honest entries (mod len); -1: a fresh entry nobody has seen
 	Field   string     `json:"field"`
-	Form    string     `json:"form"`  // A: head, claimed hash kept | B: head, hash recomputed | C: ancestor of a valid colluding head
+	Form    string     `json:"form"`  // A: head, claimed hash kept | B: head, hash recomputed | C: next of a valid colluding head | D: refs of a valid colluding head | E: next of a head that passes the pre-check but is refused at join
 	Route   string     `json:"route"` // sync | topic | direct
 }
 
@@ -38,7 +38,7 @@ func genC04(rt *rapid.T) CaseC04 {
 		PreSync: rapid.Bool().Draw(rt, "presync"),
 		Base:    rapid.IntRange(-1, 12).Draw(rt, "base"),
 		Field:   rapid.SampledFrom(c04Fields).Draw(rt, "field"),
-		Form:    rapid.SampledFrom([]string{"A", "B", "C"}).Draw(rt, "form"),
+		Form:    rapid.SampledFrom([]string{"A", "B", "C", "D", "E"}).Draw(rt, "form"),
 		Route:   rapid.SampledFrom([]string{"sync", "topic", "direct"}).Draw(rt, "route"),
 	}
 	c.Hist = genHist(rt, c.Authors, 6)
@@ -248,6 +248,44 @@ func execC04(c CaseC04) *Outcome {
 	switch form {
 	case "A", "B":
 		if err := env.deliver(ctx, c.Route, []*entry.Entry{m}); err != nil {
+			return fail("harness: deliver: %v", err)
+		}
+	case "D":
+		// a valid entry by an authorised (colluding) writer whose refs (skip pointers) name the bad block
+		payload, op := opPayload(c.Type, "k2", []byte("colluder-refs"))
+		if m.Clock != nil && m.Clock.Time > env.ctime {
+			env.ctime = m.Clock.Time
+		}
+		var next []cid.Cid
+		for _, h := range world.Heads(cl.Stores[0]) {
+			next = append(next, h.GetHash())
+		}
+		e, err := env.craftValidRefs(ctx, payload, next, []cid.Cid{m.Hash})
+		if err != nil {
+			return fail("harness: craft colluding entry: %v", err)
+		}
+		env.registerCrafted(e, env.C, op)
+		if err := env.deliver(ctx, c.Route, []*entry.Entry{e}); err != nil {
+			return fail("harness: deliver: %v", err)
+		}
+	case "E":
+		// a head that passes the announcement pre-check (authorised identity block, address matches the
+		// content) but is refused at join (its signature does not verify), whose next names the bad block
+		payload, _ := opPayload(c.Type, hostileMarker+"-key", []byte(hostileMarker+"-carrier"))
+		if m.Clock != nil && m.Clock.Time > env.ctime {
+			env.ctime = m.Clock.Time
+		}
+		e, err := env.craftValid(ctx, payload, []cid.Cid{m.Hash})
+		if err != nil {
+			return fail("harness: craft carrier: %v", err)
+		}
+		e.Sig = append([]byte{}, e.Sig...)
+		e.Sig[len(e.Sig)/3] ^= 0x21
+		if err := env.rehash(ctx, env.X, e); err != nil {
+			return fail("harness: rehash: %v", err)
+		}
+		env.hostile[e.Hash.String()] = "carrier head with a broken signature"
+		if err := env.deliver(ctx, c.Route, []*entry.Entry{e}); err != nil {
 			return fail("harness: deliver: %v", err)
 		}
 	case "C":
